@@ -86,9 +86,9 @@ def gen_abstract(p):
             elif kind == "empty":
                 items[idx] = (mn, un, "", de)
             elif kind == "long_value":
-                items[idx] = (mn, un, va + " " + "v" * 40, de)
+                items[idx] = (mn, un, (va + " tool string stuck at the shoe and more words " * 3).strip() if mut[1] == "W" else va + " " + "v" * 100, de)
             elif kind == "long_descr":
-                items[idx] = (mn, un, va, de + " " + "d" * 60)
+                items[idx] = (mn, un, va, de + " " + "d" * 120)
             elif kind == "long_mnemonic":
                 items[idx] = (mn + "LONGLONGLONG", un, va, de)
             elif kind == "case":
